@@ -401,6 +401,12 @@ def render_feature(feature, noise=None, language_header=False):
                 etags = emit_tags(ex.get("tags") or [], indent + 2, ex.get("tl"))
                 ekw = kw("examples")
                 el = out.emit(u"%s: %s" % (ekw, ex.get("name", u"")), indent + 2)
+                if ex.get("notable"):
+                    # an Examples section that has no table at all (tolerated by the parser: table is None)
+                    fact["examples"].append({"kind": "examples", "line": el, "keyword": ekw,
+                                             "name": ex.get("name", u""), "tags": etags, "headings": None,
+                                             "heading_line": None, "rows": None, "row_lines": []})
+                    continue
                 hl = out.emit(u"| " + u" | ".join(escape_cell(c) for c in ex["cols"]) + u" |",
                               indent + 4, allow_pre=True)
                 rlines = []
